@@ -879,7 +879,7 @@ func TestVerifC06HeaderLimit(t *testing.T) {
 	}
 }
 
-// FuzzList: native fuzz target (compiled by ./check; run on demand with go test -fuzz).
+// FuzzList: native fuzz target, run by ./check in the thorough tier (conf/C06.json "fuzz").
 // data is used (a) raw as a pack file and (b) as a decrypted header that is sealed with
 // a fixed key behind 100 bytes of blob area. Oracle: no panic; List succeeds exactly when
 // the reference parser accepts, with the same entries; and re-encoding the listed entries
